@@ -32,7 +32,8 @@ def cases(ctx):
         yield {"kind": "text", "seed": rng.getrandbits(32), "feats": subs[i % 16] if rng.random() < 0.7 else rng.choice(subs),
                "nlines": rng.randint(1, 30), "final_newline": rng.random() < 0.8,
                "eols": rng.choice([["\n"], ["\n"], ["\r\n"], ["\n", "\r\n"]]),
-               "via": rng.choice(["io", "io", "io", "file", "files"]), "locality": rng.random() < 0.4}
+               "via": rng.choice(["io", "io", "io", "file", "files"]), "locality": rng.random() < 0.4,
+               "empty_word": rng.random() < 0.08}
 
 
 def split_lines(s):
@@ -67,7 +68,7 @@ def content_label(tok, opts):
     """Label a token of a secret-form line from its content (for features that are off/on)."""
     labs = set()
     lt = tok.lower()
-    if any(w.lower() in lt for w in opts["words"]):
+    if any(w and w.lower() in lt for w in opts["words"]):
         labs.add("word")
     if any(r in opts["asns"] for r in re.findall(r"[0-9]+", tok)):
         labs.add("asn")
@@ -121,6 +122,9 @@ def _check(ctx, case, nc, wd):
     SCRUB = getattr(nc.sir, "_LINE_SCRUBBED_MESSAGE", SCRUB)  # the marker is netconan's to choose
     rng = random.Random(case["seed"])
     opts = M.options(rng)
+    if case.get("empty_word"):
+        # what "-w zurich," (a trailing comma) or "-w a,,b" hands to the library: an empty list item
+        opts["words"] = list(opts["words"]) + [""]
     feats = case["feats"]
     if not feats and case["via"] == "files":
         via = "io"
